@@ -26,14 +26,20 @@ func genCase() *rapid.Generator[Case] {
 	return rapid.Custom(func(t *rapid.T) Case {
 		c := Case{
 			N:        rapid.IntRange(2, 3).Draw(t, "n"),
-			SrvGC:    rapid.IntRange(0, 3).Draw(t, "srvgc") > 0,
+			SrvGC:    rapid.IntRange(0, 1).Draw(t, "srvgc") > 0,
 			PresMask: rapid.IntRange(0, 31).Draw(t, "presmask"),
 		}
 		// a history edits a drawn subset of the element kinds so that edits,
 		// deletes and undos collide on the same containers
-		mask := rapid.IntRange(1, (1<<len(editKinds))-1).Draw(t, "kinds")
-		if rapid.IntRange(0, 3).Draw(t, "allkinds") == 0 {
+		mask := 0
+		for i, nk := 0, rapid.IntRange(1, 4).Draw(t, "nkinds"); i < nk; i++ {
+			mask |= 1 << rapid.IntRange(0, len(editKinds)-1).Draw(t, "kind")
+		}
+		if rapid.IntRange(0, 4).Draw(t, "allkinds") == 0 {
 			mask = (1 << len(editKinds)) - 1
+		}
+		if mask&(1<<6) != 0 { // text style needs text to style
+			mask |= 1 << 5
 		}
 		var edits []string
 		for i, k := range editKinds {
@@ -45,12 +51,16 @@ func genCase() *rapid.Generator[Case] {
 		if mask&(1<<(len(editKinds)-2)) != 0 { // undo in focus: make it frequent
 			pool = append(pool, "undo", "undo", "redo")
 		}
-		nSync := max(3, len(pool)/3)
+		nSync := max(3, len(pool)/4)
 		for i := 0; i < nSync; i++ {
 			pool = append(pool, "sync")
 		}
-		pool = append(pool, "snap", "snap", "late")
-		c.Steps = prog.GenSteps(t, "steps", c.N, pool, 1, maxSteps)
+		for i := 0; i < max(2, len(pool)/10); i++ {
+			pool = append(pool, "snap")
+		}
+		pool = append(pool, "late")
+		nSteps := rapid.IntRange(2, maxSteps).Draw(t, "nsteps")
+		c.Steps = prog.GenSteps(t, "steps", c.N, pool, nSteps, nSteps)
 		if rapid.IntRange(0, 2).Draw(t, "offline") > 0 {
 			// one replica stays offline for a stretch: its later changes are
 			// anchored on elements the others have deleted or moved meanwhile
